@@ -15,7 +15,7 @@ from concurrent.futures import ThreadPoolExecutor
 import c08_gen as G
 
 INTK = {"bool", "char", "schar", "uchar", "short", "ushort", "int", "uint", "long", "ulong", "llong",
-        "ullong", "enum4", "enum8", "ptr"}
+        "ullong", "enum4", "enum8", "ptr"} | set(G.ENUM_NAMES)
 UNSIGNED = {"bool", "uchar", "ushort", "uint", "ulong", "ullong"}
 
 
@@ -67,7 +67,7 @@ def fill_stmt(lv, sc, w, i):
     v = f"c08_mix(s, {i})"
     ct = G.SC_C[sc]
     if w is not None:
-        weff = w - 1 if sc in ("enum4", "enum8") else w
+        weff = w - 1 if G.is_enum(sc) else w
         if sc == "bool":
             return f"  {lv} = ({v} >> 63) & 1;"
         if weff <= 0:
@@ -83,10 +83,10 @@ def fill_stmt(lv, sc, w, i):
         return f"  {lv} = (long double) (long long) ({v} >> 2) * 0.5L;"
     if sc == "ptr":
         return f"  {lv} = (void *) (unsigned long) {v};"
-    if sc == "enum4":
-        return f"  {lv} = (enum c08_e4) (int) ({v} >> 32);"
-    if sc == "enum8":
-        return f"  {lv} = (enum c08_e8) (long) ({v} >> 1);"
+    if G.is_enum(sc):
+        if G.SC_SIZE[sc] == 4:
+            return f"  {lv} = ({ct}) (int) ({v} >> 32);"
+        return f"  {lv} = ({ct}) (long) ({v} >> 1);"
     return f"  {lv} = ({ct}) ({v} >> {64 - 8 * G.SC_SIZE[sc]});"
 
 
@@ -256,7 +256,8 @@ def locate(d, ps, layinfo, prefer=None):
         nq = (sz + 7) // 8
         pieces = [raw[8 * j:8 * j + 8] for j in range(nq)]
         sp_al = (sp + 15) // 16 * 16 if al >= 16 else sp
-        on_stack = stack[sp_al:sp_al + sz] == raw
+        nb = 10 if p == ("sc", "ldouble") else sz      # bytes 10..15 of a long double object are padding
+        on_stack = stack[sp_al:sp_al + nb] == raw[:nb]
 
         def try_regs(want=None):
             ci = cf = 0
@@ -732,17 +733,47 @@ def run(ck, C2M, WORK, drv, runcmd, cases, QUICK, layout_eval):
         return out, len(aggs)
 
     def boundary_protos():
-        """each register-class pattern behind every count 0..9 of INTEGER scalars and of SSE scalars (and the
-        3x3 grid around 6 / 8), followed by one long and one double: the aggregate ends one before, exactly at
-        and one past the last register of each file; both call directions, both engines"""
-        L, D = ("sc", "long"), ("sc", "double")
+        """each register-class pattern (I,S,II,SS,IS,SI) behind systematically counted scalars, followed by one
+        long and one double, so that the aggregate ends one before, exactly at and one past the last register of
+        each file; both call directions, both engines.  SSE scalars alternate double / float.
+          - no long double: every count 0..9 of INTEGER scalars, of SSE scalars, and the 3x3 grid around 6 / 8
+          - 1 and 2 long double scalars (first parameter; second one right before the aggregate): 0..6 INTEGER
+            scalars for the patterns with an INTEGER eightbyte, 0..8 SSE scalars for those with an SSE eightbyte
+          - thorough: the full grid 0..6 x 0..8 x 0..2
+          - enumerated types on the int/unsigned/long boundaries as scalar parameter and struct members"""
+        L, D, F, LD = ("sc", "long"), ("sc", "double"), ("sc", "float"), ("sc", "ldouble")
         pats = {"I": [L], "S": [D], "II": [L, L], "SS": [D, D], "IS": [L, D], "SI": [D, L]}
         pairs = [(i, 0) for i in range(10)] + [(0, f) for f in range(1, 10)] + [(i, f) for i in (4, 5, 6) for f in (6, 7, 8)]
-        out = []
+        out, seen = [], set()
+
+        def add(ps):
+            k = proto_str((None, ps))
+            if k not in seen:
+                seen.add(k)
+                out.append((None, ps))
+
+        def params(ni, nf, nld, t):
+            sse = [D if j % 2 == 0 else F for j in range(nf)]
+            return ([LD] if nld >= 1 else []) + [L] * ni + sse + ([LD] if nld >= 2 else []) + [t, L, D]
         for name, ms in pats.items():
             t = ("agg", False, [("p", m) for m in ms])
             for ni, nf in pairs:
-                out.append((None, [L] * ni + [D] * nf + [t, L, D]))
+                add(params(ni, nf, 0, t))
+            for nld in (1, 2):
+                if "I" in name:
+                    for ni in range(7):
+                        add(params(ni, 0, nld, t))
+                if "S" in name:
+                    for nf in range(9):
+                        add(params(0, nf, nld, t))
+            if not QUICK:
+                for ni in range(7):
+                    for nf in range(9):
+                        for nld in range(3):
+                            add(params(ni, nf, nld, t))
+        for en in G.ENUM_NAMES:
+            e = ("sc", en)
+            add([e, ("agg", False, [("p", e), ("p", F)]), ("agg", False, [("p", e), ("p", e)]), L])
         return out
 
     cps = [proto_from_str(c["proto"]) for c in cases if c.get("expect") != "pass"]
@@ -761,7 +792,9 @@ def run(ck, C2M, WORK, drv, runcmd, cases, QUICK, layout_eval):
         for i in range(0, len(bp), 84):
             process(bp[i:i + 84], f"boundary {i}")
         stats["boundary"] = {"protos": stats["protos"] - before,
-                             "rule": "6 class patterns (I,S,II,SS,IS,SI) x {0..9 long} u {0..9 double} u {4,5,6}x{6,7,8} preceding scalars, then long, double"}
+                             "rule": "6 class patterns (I,S,II,SS,IS,SI) x ({0..9 long} u {0..9 double/float} u {4,5,6}x{6,7,8}; with 1 and 2 "
+                                     "long double scalars: 0..6 long resp. 0..8 double/float" + ("" if QUICK else "; full grid 0..6 x 0..8 x 0..2") +
+                                     ") preceding scalars, then long, double; boundary enums as scalar and struct members"}
     if not ck.replay:
         nb, per = (2, 60) if QUICK else (12, 100)
         for i in range(nb):
